@@ -268,7 +268,8 @@ class PG:
             return ["%sx = %s or 1.5" % (ind, self.p())]          # typed double local
         return ["%so = ps.cpm(a)" % ind]                           # C-level call that must reach the Python override
 
-    def dblock(self, depth, ind, in_loop=False, in_finally=False, in_handler=False, guarded=False):
+    def dblock(self, depth, ind, in_loop=False, in_finally=False, in_handler=False, guarded=False, noret=False):
+        """noret: quarantine F26 (no 'return' inside a try-with-finally that is lexically inside an except handler)"""
         r = self.rng
         out = []
         for _ in range(r.randint(1, 3)):
@@ -276,14 +277,14 @@ class PG:
             if q < 0.45:
                 out += self.leaf(ind)
             elif q < 0.70 and depth > 0:
-                out += self.dtry(depth - 1, ind, in_loop, in_finally, in_handler)
+                out += self.dtry(depth - 1, ind, in_loop, in_finally, in_handler, noret)
             elif q < 0.76 and depth > 0:
                 out.append("%sfor k%d in range(%d):" % (ind, self.pk, r.randint(1, 2)))
                 self.pk += 1
-                out += self.dblock(depth - 1, ind + "    ", True, in_finally, in_handler, guarded)
+                out += self.dblock(depth - 1, ind + "    ", True, in_finally, in_handler, guarded, noret)
             elif q < 0.80 and in_loop and not in_finally:
                 out.append("%sif a == %d: %s" % (ind, r.randint(0, 2), r.choice(["break", "continue"])))
-            elif q < 0.86 and not in_finally:
+            elif q < 0.86 and not in_finally and not noret:
                 out.append("%sif a == %d: return (%d, n)" % (ind, r.randint(0, 2), self.pk))
                 if guarded:
                     self._f19_hit = True
@@ -296,11 +297,12 @@ class PG:
                 out += self.leaf(ind)
         return out
 
-    def dtry(self, depth, ind, in_loop, in_finally, in_handler):
+    def dtry(self, depth, ind, in_loop, in_finally, in_handler, noret=False):
         r = self.rng
         has_finally = r.random() < 0.5
+        noret = noret or (has_finally and in_handler)
         out = [ind + "try:"]
-        out += self.dblock(depth, ind + "    ", in_loop, in_finally, in_handler, guarded=has_finally)
+        out += self.dblock(depth, ind + "    ", in_loop, in_finally, in_handler, guarded=has_finally, noret=noret)
         if not has_finally or r.random() < 0.7:
             exc = r.choice(["E1", "E2", "(E1, E2)", "E3", "BaseException", "Exception", "KeyError", "StopIteration", "TypeError", "OverflowError"])
             if r.random() < 0.5:
@@ -308,11 +310,12 @@ class PG:
             else:
                 out.append("%sexcept %s:" % (ind, exc))
             out.append("%s    %s" % (ind, self.x()))
-            out += self.dblock(depth, ind + "    ", in_loop, in_finally, True, guarded=has_finally)
+            out += self.dblock(depth, ind + "    ", in_loop, in_finally, True, guarded=has_finally, noret=noret)
         if has_finally:
             out.append(ind + "finally:")
             out.append("%s    %s" % (ind, self.x()))
-            out += self.dblock(depth, ind + "    ", in_loop, True, in_handler)
+            # quarantine F26: no bare 'raise' directly in a finally clause
+            out += self.dblock(depth, ind + "    ", in_loop, True, False)
         return out
 
     def gen_driver(self, idx):
